@@ -10,6 +10,9 @@ import (
 
 func main() { Main("C01", c01) }
 
+// partner byte the escaped check code of the current checksum-special case must show (7d -> 7d 01, 7e -> 7d 02)
+var specialPartner byte
+
 var alphabet = []byte{0x7e, 0x7d, 0x01, 0x02, 0x00, 0x41}
 
 func c01(c *Ctx) {
@@ -51,7 +54,7 @@ func c01(c *Ctx) {
 			// the generator solved the body for a check code of 0x7d / 0x7e: make sure it really is one (the
 			// escaped code is the last thing before the closing delimiter)
 			n := len(frame)
-			if n >= 4 && frame[n-3] == 0x7d && (frame[n-2] == 0x01 || frame[n-2] == 0x02) {
+			if n >= 4 && frame[n-3] == 0x7d && frame[n-2] == specialPartner {
 				c.Count("checksum-special:hit")
 			} else {
 				c.Count("checksum-special:MISS")
@@ -124,6 +127,7 @@ func c01(c *Ctx) {
 				m := RefMsg{ID: 0x8001, Enc: sm.Enc, Ver: sm.Ver, Bcd: sm.Bcd, Serial: ps, Body: body}
 				x := RefXor(RefPayload(m, 0, 1))
 				body[l-1] ^= x ^ target
+				specialPartner = map[byte]byte{0x7d: 0x01, 0x7e: 0x02}[target]
 				one(src, 0x8001, ps, body, "checksum-special")
 			}
 		}
